@@ -865,3 +865,54 @@ func rh5Cleanup(w *World) {
 		w.ok("evict-result-agnostic", ev.Decl.Pos(), "EvictWithCleanup and its callees never read task.result: the evicted set is the upward closure of the given keys in the dependency graph")
 	}
 }
+
+// RH5c (C33, C35): dependency edges are removed only by eviction. Resolve records caller<->callee
+// edges (task.deps / task.callers); EvictWithCleanup follows callers upwards to find everything
+// that must be recomputed and is the only place that may delete an edge, under the exclusive lock.
+// A Delete anywhere else (e.g. "un-recording" the edge that closed a cycle) makes the graph forget
+// a dependency that still shaped a memoized value: evicting the dependency no longer reaches the
+// dependent, which keeps its stale result.
+func rh5cEdgesRemovedOnlyByEviction(w *World) {
+	w.rule("RH5")
+	p := w.pkg(incRel)
+	callersFld := w.field(incRel, "task", "callers")
+	depsFld := w.field(incRel, "task", "deps")
+	if p == nil || callersFld == nil || depsFld == nil {
+		return
+	}
+	info := p.TypesInfo
+	n := 0
+	for _, b := range allFuncBodies(p) {
+		if b.Lit != nil {
+			continue
+		}
+		ast.Inspect(b.Body, func(x ast.Node) bool {
+			c, ok := x.(*ast.CallExpr)
+			if !ok {
+				return true
+			}
+			s, ok := ast.Unparen(c.Fun).(*ast.SelectorExpr)
+			if !ok {
+				return true
+			}
+			switch s.Sel.Name {
+			case "Delete", "LoadAndDelete", "Clear", "CompareAndDelete":
+			default:
+				return true
+			}
+			f := selField(info, s.X)
+			if f != callersFld && f != depsFld {
+				return true
+			}
+			n++
+			key := "edge-delete|" + b.Label + "|" + types.ExprString(s.X) + "." + s.Sel.Name
+			if strings.HasSuffix(b.Label, "(*Executor).EvictWithCleanup") {
+				w.ok(key, c.Pos(), "dependency edge removed as part of eviction")
+			} else {
+				w.violation(key, c.Pos(), "a dependency edge ("+f.Name()+") is deleted outside EvictWithCleanup: the dependent keeps a memoized value that was shaped by this dependency, but evicting the dependency no longer reaches it, so the long-lived executor returns results a fresh one would not")
+			}
+			return true
+		})
+	}
+	w.floor("deletions of dependency edges", n, 1)
+}
